@@ -74,7 +74,7 @@ def make_inst(rng, ord_, sz, ms):
     return {"ord": list(ord_), "sz": sz, "p": p, "meas": meas}
 
 
-def spell(m, sz, style):
+def spell(m, sz, style, nscale=1.0):
     """One spelling of measurement m -> (Q, y, noise, proj) tuple as the user would pass it."""
     Q = np.array(m["Q"], dtype=float)
     if m["kind"] == "none" and style["q"] == "none":
@@ -92,14 +92,19 @@ def spell(m, sz, style):
         pj = list(proj)
     else:
         pj = tuple(proj)
-    return (Qs, np.array(m["y"], dtype=float), m["noise"], pj)
+    return (Qs, np.array(m["y"], dtype=float), m["noise"] * nscale, pj)
 
 
-def setup_engine(inst, style, metric="L2"):
+def setup_engine(inst, style, metric="L2", nscale=1.0, history=False):
     dom = Domain(inst["ord"], [inst["sz"][a] for a in inst["ord"]])
-    eng = FactoredInference(dom, metric=metric, iters=1)
-    meas = [spell(m, inst["sz"], style) for m in inst["meas"]]
+    eng = FactoredInference(dom, metric=metric, iters=1, warm_start=bool(history))
     total = float(sum(inst["p"]))
+    if history:
+        # earlier calls on the same (warm-started) engine: the same cliques measured with other answers, and a longer list
+        prior = [spell(dict(m, y=[v + 2 for v in m["y"]]), inst["sz"], style, nscale) for m in inst["meas"]]
+        eng._setup(eng.fix_measurements(prior + prior[:1]), total)
+        eng._setup(eng.fix_measurements(prior[:1]), total)
+    meas = [spell(m, inst["sz"], style, nscale) for m in inst["meas"]]
     fixed = eng.fix_measurements(meas)
     eng._setup(fixed, total)
     return eng, meas, fixed
@@ -160,8 +165,10 @@ def run(ctx, canary=False):
         if e is None:
             continue
         use = styles if (thorough or i <= 6) else [styles[0]] + rng.sample(styles[1:], 3)
-        for st in use:
-            check_instance(ctx, inst, e, st)
+        for k, st in enumerate(use):
+            # noise scaled by s: loss, gradient and smoothness constant scale by exactly 1/s^2 (L1 by 1/s); every third run is the
+            # last of three calls on one warm-started engine
+            check_instance(ctx, inst, e, st, nscale=[1.0, 1e-3, 1e-7, 1e2][(i + k) % 4], history=((i + k) % 3 == 2))
     ctx.sample({"instance": {k: insts[0][k] for k in ("ord", "sz", "p", "cliques")},
                 "measurements": [{k: m[k] for k in ("proj", "kind", "noise", "y")} for m in insts[0]["meas"]],
                 "spec": {k: exp[1][k] for k in ("group", "loss8", "l1x2", "lip4")} if 1 in exp else None})
@@ -169,13 +176,14 @@ def run(ctx, canary=False):
                         "eigsh accuracy observed (1e-6 relative)", "custom callable metrics not covered"]
 
 
-def check_instance(ctx, inst, e, st):
-    info = {"domain": inst["ord"], "sizes": inst["sz"], "p": inst["p"], "spelling": st,
+def check_instance(ctx, inst, e, st, nscale=1.0, history=False):
+    s2 = nscale * nscale
+    info = {"domain": inst["ord"], "sizes": inst["sz"], "p": inst["p"], "spelling": st, "noise_scale": nscale, "after_earlier_calls": history,
             "measurements": [{k: m[k] for k in ("proj", "kind", "noise", "y")} for m in inst["meas"]]}
     ctx.case((json.dumps(info, sort_keys=True)), nontrivial=len(inst["meas"]) >= 2)
     bad = []
     try:
-        eng, meas, fixed = setup_engine(inst, st)
+        eng, meas, fixed = setup_engine(inst, st, nscale=nscale, history=history)
         mu = mu_of(inst, eng)
         # each measurement exactly once, inside a clique that contains it
         seen = []
@@ -188,13 +196,13 @@ def check_instance(ctx, inst, e, st):
         if sorted(seen) != list(range(len(meas))):
             bad.append("measurements counted %s (each must be counted exactly once)" % sorted(seen))
         loss, grad = eng._marginal_loss(mu)
-        want = e["loss8"] / 8.0
-        if not math.isclose(loss, want, rel_tol=1e-12, abs_tol=1e-12):
+        want = e["loss8"] / 8.0 / s2
+        if not math.isclose(loss, want, rel_tol=1e-12, abs_tol=1e-12 / s2):
             bad.append("L2 loss %r, spec %r" % (loss, want))
         # joint-level gradient is independent of how measurements are grouped
         G = sum(grad[cl].expand(eng.domain).values for cl in grad)
-        wantG = np.array(e["gjoint4"], dtype=float).reshape(G.shape) / 4.0
-        if not np.allclose(G, wantG, rtol=1e-12, atol=1e-12):
+        wantG = np.array(e["gjoint4"], dtype=float).reshape(G.shape) / 4.0 / s2
+        if not np.allclose(G, wantG, rtol=1e-12, atol=1e-12 / s2):
             bad.append("gradient (summed over cliques) %s, spec %s" % (G.reshape(-1).tolist(), wantG.reshape(-1).tolist()))
         # the gradient is the derivative of the loss the code itself evaluates (exact for a quadratic)
         for cl in mu:
@@ -203,7 +211,7 @@ def check_instance(ctx, inst, e, st):
                 up[cl].values[idx] += 1.0
                 dn[cl].values[idx] -= 1.0
                 fd = (eng._marginal_loss(up)[0] - eng._marginal_loss(dn)[0]) / 2.0
-                if not math.isclose(fd, float(grad[cl].values[idx]), rel_tol=1e-9, abs_tol=1e-9):
+                if not math.isclose(fd, float(grad[cl].values[idx]), rel_tol=1e-9, abs_tol=1e-9 / s2):
                     bad.append("d loss / d mu[%s]%s = %r but gradient says %r" % (cl, idx, fd, float(grad[cl].values[idx])))
                     break
         # smoothness constant: equals the spec's and bounds the Hessian of the code's own gradient
@@ -223,14 +231,14 @@ def check_instance(ctx, inst, e, st):
                 g1 = eng._marginal_loss(up)[1]
                 H[:, offs[cl] + j] = np.concatenate([g1[c].values.reshape(-1) for c in keys]) - g0
         lam = float(np.linalg.eigvalsh((H + H.T) / 2).max()) if n else 0.0
-        if lam > L * (1 + 1e-6) + 1e-9:
+        if lam > L * (1 + 1e-6) + 1e-9 / s2:
             bad.append("smoothness constant %r is below the largest Hessian eigenvalue %r" % (L, lam))
         # L1
-        eng1, _, fixed1 = setup_engine(inst, st, metric="L1")
+        eng1, _, fixed1 = setup_engine(inst, st, metric="L1", nscale=nscale, history=history)
         mu1 = mu_of(inst, eng1)
         l1, g1 = eng1._marginal_loss(mu1)
-        if not math.isclose(l1, e["l1x2"] / 2.0, rel_tol=1e-12, abs_tol=1e-12):
-            bad.append("L1 loss %r, spec %r" % (l1, e["l1x2"] / 2.0))
+        if not math.isclose(l1, e["l1x2"] / 2.0 / nscale, rel_tol=1e-12, abs_tol=1e-12 / nscale):
+            bad.append("L1 loss %r, spec %r" % (l1, e["l1x2"] / 2.0 / nscale))
     except Exception as ex:
         ctx.violation("loss machinery raised %r" % ex, info, {"kind": "crash"})
         return
